@@ -1,1 +1,2 @@
-
+pub mod adoc;
+pub mod genes;
